@@ -77,7 +77,7 @@ def draw_params(ctx, cls, n, opts):
     elif cls in REVOLVE_FAMILY:
         P["ram"] = ctx.int("ram", 1, opts.get("rmax", 2), eager=True)
         if cls == "HRevolve":
-            P["disk"] = ctx.int("disk", 0, opts.get("dmax", 2), eager=True)
+            P["disk"] = ctx.int("disk", opts.get("dmin", 0), opts.get("dmax", 2), eager=True)
         P["uf"], P["ub"], P["wd"], P["rd"] = draw_costs(ctx, opts)
         if cls == "PeriodicDiskRevolve" and is_sym(P["uf"]):
             # unwinding assumption of the period loop (DESIGN 3.3)
